@@ -136,6 +136,7 @@ def check(prop, tier, seed, t0):
 
     violations, undecided, kf_lines, crashed, unconfirmed = [], [], [], [], []
     facts = set()
+    fuzzed = {}
     n_ob = n_ok = 0
     by_backend = {}
     solver_time = 0.0
@@ -192,7 +193,38 @@ def check(prop, tier, seed, t0):
             elif v == 'vacuous':
                 crashed.append(dict(name=res['name'], detail='hypotheses of %s are unsatisfiable (vacuous contract)' % o['id']))
             else:
-                undecided.append('%s: %s (%s)' % (o['id'], v, o['backend']))
+                # undecided by the solvers: look for a real failing input of this function's contract before giving up
+                hit = None
+                if res['kind'] == 'fn' and res['name'] not in fuzzed:
+                    try:
+                        hit, tried = native.fuzz_contract(res['name'], seed, 300, reg)
+                    except Exception:
+                        hit, tried = None, 0
+                    fuzzed[res['name']] = hit
+                elif res['kind'] == 'fn':
+                    hit = fuzzed[res['name']]
+                if hit is not None and o['id'] not in failing_ids:
+                    failing_ids.add(o['id'])
+                    o = dict(o, model=hit['inputs'], verdict='undischarged', note=(o.get('note') or '') + ' | solver: %s; failing input found by native contract search: %s' % (v, hit['native']['failed'][:2]))
+                    violations.append((res, o))
+                else:
+                    undecided.append('%s: %s (%s)' % (o['id'], v, o['backend']))
+    # findings recorded as an excluded precondition of a contract: the witness is replayed natively on every run
+    for f in known['findings']:
+        if f.get('kind') != 'precondition':
+            continue
+        c = reg.get(f['target'])
+        if c is None or prop not in c.props or not any(r['name'] == c.target for r in results):
+            continue
+        try:
+            obs = native.observe(c.target, f['witness'])
+        except Exception as ex:
+            obs = dict(bad=False, outcome='witness not replayable: %s' % ex)
+        if obs['bad']:
+            kf_lines.append('KNOWN-FINDING: property=%s %s [%s, excluded by the precondition of the contract of %s; witness outcome: %s]' % (
+                prop, f['what'], f['id'], c.target, obs['outcome'][:80]))
+        else:
+            print('note: known finding %s no longer reproduces natively (%s)' % (f['id'], obs['outcome'][:120]))
     # baseline of obligation ids (vacuity / regression guard)
     base_path = os.path.join(HERE, 'baseline', '%s.json' % prop)
     ids_now = sorted({o['id'] for res in results if res['status'] == 'ok' for o in res['obligations'] if prop in o['props']})
